@@ -94,7 +94,7 @@ pub fn hook(gn: &mut Gen, w: &mut World) -> Option<Step> {
             if !w.is_active_member(node, g) || w.has_pending_commit(node, g) {
                 return None;
             }
-            HostileOp::CraftedCommit { g, kind: gn.rng().below(10) as u8, victim }
+            HostileOp::CraftedCommit { g, kind: gn.rng().below(12) as u8, victim }
         }
         "h_proposal" => {
             if !w.is_active_member(node, g) || w.has_pending_commit(node, g) {
